@@ -142,6 +142,7 @@ class Cfg:
         self.str_and_tok = False     # a parameter used both plainly and with '#' (stringize-nested-call)
         self.errors = 0.0            # probability of a wrong argument count per invocation
         self.heavy = 1.0             # scale of nesting
+        self.obj_only = False        # object-like macros only (the class of CprocVerif.C12.object_like_correct_total)
         self.__dict__.update(kw)
 
 
@@ -364,7 +365,11 @@ def gen_case(rng, cfg, H):
 
 def gen_case1(rng, cfg, H):
     nm = rng.choice([1, 2, 3, 4, 6, 8, 12])
-    pool = rng.sample(OBJ, min(len(OBJ), (nm + 1) // 2 + 1)) + rng.sample(FUN, min(len(FUN), nm // 2 + 1))
+    if cfg.obj_only:
+        nm = min(nm, len(OBJ))
+        pool = rng.sample(OBJ, nm)
+    else:
+        pool = rng.sample(OBJ, min(len(OBJ), (nm + 1) // 2 + 1)) + rng.sample(FUN, min(len(FUN), nm // 2 + 1))
     rng.shuffle(pool)
     names = Names(pool[:nm])
     names.sig = {n: (rng.choice([0, 1, 1, 2, 2, 3, 4]), rng.random() < 0.3) for n in names if n in FUN}
@@ -793,6 +798,26 @@ def directive_after_text(text):
     return False
 
 
+def theorem_class(text):
+    """which proved model = reference statement covers the unit:
+    'object-like-total' = every macro is object-like and every directive precedes the first text line (the
+    initial state after the definitions is `Good`: CprocVerif.C12.object_like_correct_total, no fuel hypothesis);
+    'object-like' = every macro is object-like (each text segment between directives starts in a `Good` state);
+    None = function-like macros occur (component theorems only)."""
+    seen_text = False
+    later_directive = False
+    for ln in text.split("\n"):
+        m = re.match(r"\s*#\s*(\w*)", ln)
+        if m:
+            if m.group(1) == "define" and re.match(r"\s*#\s*define\s+[A-Za-z_]\w*\(", ln):
+                return None
+            if seen_text and m.group(1) in ("define", "undef", "pragma"):
+                later_directive = True
+        elif ln.strip():
+            seen_text = True
+    return "object-like" if later_directive else "object-like-total"
+
+
 def pragma_names_funclike(text):
     """a #pragma line that mentions a function-like macro defined before it"""
     funs = set()
@@ -844,6 +869,11 @@ def examine1(X, texts, label, expect=None, asan=None):
     for i, t in enumerate(texts):
         ck.count((label, t))
         X.ninputs[label] = X.ninputs.get(label, 0) + 1
+        if not label.startswith(("known:", "diagnostics", "replay", "corpus")):
+            X.tclass["units"] = X.tclass.get("units", 0) + 1
+            tc = theorem_class(t)
+            if tc:
+                X.tclass[tc] = X.tclass.get(tc, 0) + 1
         r, rn = R[i], Rn[i]
         for k, _, _ in r.toks:
             X.kinds_seen[k] = X.kinds_seen.get(k, 0) + 1
@@ -1154,7 +1184,7 @@ def run(ck):
         "cproc-qbe.  Reference validated against gcc and clang.  distinct_nontrivial = distinct input texts.")
     X = Ctx()
     X.ck = ck
-    X.ninputs, X.errs, X.events, X.known, X.kinds_seen, X.outlen, X.secs = {}, {}, {}, {}, {}, {}, {}
+    X.ninputs, X.errs, X.events, X.known, X.kinds_seen, X.outlen, X.secs, X.tclass = {}, {}, {}, {}, {}, {}, {}, {}
     try:
         kinds, tokstr = load_kinds()
     except Exception as e:  # noqa
@@ -1212,6 +1242,11 @@ def run(ck):
             break
         examine(X, main[k:k + 4000], "macro-sets", asan=200 if quick else 1000)
     ck.sample({"macro set": main[3][:600]})
+    # 2b. object-like macro sets: the class of the strongest proved equivalence
+    if not ck.violations:
+        cfg_o = Cfg(obj_only=True)
+        examine(X, [gen_case(rng, cfg_o, H) for _ in range(150 if quick else 1200)], "object-like-macro-sets",
+                asan=40 if quick else 300)
     # 3. redefinitions
     if not ck.violations:
         red = [gen_redef(rng, H) for _ in range(200 if quick else 2500)]
@@ -1252,6 +1287,17 @@ def run(ck):
     ck.cov["input_distribution"] = dict(sorted(H.items()))
     ck.cov["inputs_per_set"] = X.ninputs
     ck.cov["seconds_per_stage"] = X.secs
+    n_units = max(1, X.tclass.get("units", 0))
+    n_tot = X.tclass.get("object-like-total", 0)
+    n_obj = n_tot + X.tclass.get("object-like", 0)
+    ck.cov["theorem_class_coverage"] = {
+        "generated_units": X.tclass.get("units", 0),
+        "object_like_correct_total (all macros object-like, directives before the text)": n_tot,
+        "object_like_correct per text segment (all macros object-like)": n_obj,
+        "fraction_total": round(n_tot / n_units, 4), "fraction_object_like": round(n_obj / n_units, 4),
+        "note": "units with function-like macros are covered by the component theorems (define_*, macroequal_*, "
+                "split_args_correct, expandfunc_is_collect, ctxnext_delivers_flat, lazy_substitution_correct, "
+                "stringize_correct, painted_never_expands) and by the differential run, not by a proved equivalence"}
     ck.cov["diagnostic_classes_hit"] = X.errs
     ck.cov["model_events_and_reference_flags"] = X.events
     ck.cov["known_finding_hits"] = X.known
